@@ -12,6 +12,9 @@
 \*   contact batch does not fit     -> warning CONTACTFULL, the batch is dropped (truncated contact list)
 \*   efc arrays do not fit          -> warning CNSTRFULL, nefc = 0, no contact keeps an efc address
 \*   island arrays do not fit       -> warning CNSTRFULL, nefc = 0, nisland = 0, no contact keeps an efc address
+\*   dual-solver matrices (mj_projectConstraint -> mj_makeY: efc_Y_rownnz/rowadr, then efc_Y + efc_Y_colind;
+\*   mj_makeAR: efc_AR_rownnz/rowadr, then efc_AR + efc_AR_colind; only for PGS / noslip) do not fit
+\*                                  -> warning CNSTRFULL, mj_clearEfc: nefc = 0, nisland = 0, arena rewound to the contacts
 \* The constants PairChecked / IslandClears select the INTENDED behaviour (TRUE) or the code as it stands (FALSE:
 \* pushPairArena tests its argument instead of the returned pointer; clearIsland zeroes nefc but leaves the
 \* contacts' efc addresses).  The intended specification is the oracle of the trace validation (ArenaStepTrace).
@@ -20,11 +23,13 @@ CONSTANTS CapMax,        \* capacities 0..CapMax
           Profiles,      \* set of demand profiles (records, see P_* below)
           MaxSteps,      \* number of consecutive steps
           PairChecked,   \* pushPairArena checks the pointer it got
-          IslandClears   \* a failed island allocation also clears the contacts' efc addresses
+          IslandClears,  \* a failed island allocation also clears the contacts' efc addresses
+          DualChecked    \* mj_makeAR checks BOTH pointers of its (efc_AR, efc_AR_colind) pair of allocations
 
 \* unit costs
 BroadStk == 1    PairSz == 1    NarrowStk == 1    ConSz == 2    RowSz == 1    IslStk == 1    IslSz == 1    SolveStk == 2
 FrameSz == 1     \* the outermost mark of the step
+YIdx == 1    YVal == 1    YCol == 1    ARStk == 1    AIdx == 1    AVal == 2    ACol == 1     \* dual-solver matrices
 
 VARIABLES cap, prof,          \* chosen initially
           pc,                 \* allocation site reached
@@ -113,15 +118,40 @@ MakeCon == /\ pc = "contacts" /\ batch > Len(prof.batches)
 \* mj_island: scratch on the stack, island arrays on the arena
 Island == /\ pc = "island"
           /\ IF nefc = 0 \/ ~prof.islands
-             THEN pc' = "solve" /\ Keep(<<nisl, nefc, incl, parena, wcns, err, obs>>)
+             THEN pc' = "projY" /\ Keep(<<nisl, nefc, incl, parena, wcns, err, obs>>)
              ELSE IF ~StackFits(IslStk)
                   THEN Raise("stackoverflow") /\ Keep(<<nisl, nefc, incl, parena, wcns>>)
                   ELSE IF parena + IslSz <= cap - (pstack + IslStk)
-                       THEN nisl' = 1 /\ parena' = parena + IslSz /\ pc' = "solve" /\ Keep(<<nefc, incl, wcns, err, obs>>)
-                       ELSE /\ wcns' = wcns + 1 /\ nefc' = 0 /\ nisl' = 0 /\ pc' = "solve"
+                       THEN nisl' = 1 /\ parena' = parena + IslSz /\ pc' = "projY" /\ Keep(<<nefc, incl, wcns, err, obs>>)
+                       ELSE /\ wcns' = wcns + 1 /\ nefc' = 0 /\ nisl' = 0 /\ pc' = "projY"
                             /\ incl' = IF IslandClears THEN 0 ELSE incl
                             /\ Keep(<<parena, err, obs>>)
           /\ Keep(<<cap, prof, pstack, npair, batch, ncon, wcon, deref, steps>>)
+
+\* mj_clearEfc after a failed allocation of a dual-solver matrix
+ClearEfc == /\ wcns' = wcns + 1 /\ nefc' = 0 /\ nisl' = 0 /\ incl' = 0 /\ parena' = ncon * ConSz /\ pc' = "solve"
+
+\* mj_makeY (dual solvers only): row index arrays, then values + column indices, each pair with one test
+ProjY == /\ pc = "projY"
+         /\ IF nefc = 0 \/ ~prof.dual
+            THEN pc' = "solve" /\ Keep(<<nisl, nefc, incl, parena, wcns>>)
+            ELSE IF ArenaFits(YIdx + YVal + YCol)
+                 THEN parena' = parena + YIdx + YVal + YCol /\ pc' = "projA" /\ Keep(<<nisl, nefc, incl, wcns>>)
+                 ELSE ClearEfc
+         /\ Keep(<<cap, prof, pstack, npair, batch, ncon, wcon, err, deref, steps, obs>>)
+
+\* mj_makeAR: transposed Y on the stack, row index arrays, then efc_AR followed by efc_AR_colind
+ProjA == /\ pc = "projA"
+         /\ IF ~StackFits(ARStk)
+            THEN Raise("stackoverflow") /\ Keep(<<nisl, nefc, incl, parena, wcns, deref>>)
+            ELSE LET room == cap - (pstack + ARStk) - parena IN
+                 IF AIdx + AVal + ACol <= room
+                 THEN parena' = parena + AIdx + AVal + ACol /\ pc' = "solve" /\ Keep(<<nisl, nefc, incl, wcns, err, deref, obs>>)
+                 ELSE IF AIdx + AVal <= room /\ ~DualChecked
+                      THEN /\ deref' = TRUE /\ pc' = "crash" /\ obs' = [kind |-> "crash"]   \* efc_AR_colind = NULL is written through
+                           /\ Keep(<<nisl, nefc, incl, parena, wcns, err>>)
+                      ELSE ClearEfc /\ Keep(<<err, deref, obs>>)
+         /\ Keep(<<cap, prof, pstack, npair, batch, ncon, wcon, steps>>)
 
 \* the rest of the step (solver vectors, integrator) on the stack; then every frame is freed
 Solve == /\ pc = "solve"
@@ -143,12 +173,12 @@ Reset == /\ pc = "error" /\ err # "noarena"
          /\ obs' = [kind |-> "reset"]
          /\ Keep(<<cap, prof, npair, batch, wcon, wcns, deref, steps>>)
 
-Next == NoArena \/ Begin \/ Broad \/ PushPair \/ Narrow \/ Contacts \/ MakeCon \/ Island \/ Solve \/ Reset
+Next == NoArena \/ Begin \/ Broad \/ PushPair \/ Narrow \/ Contacts \/ MakeCon \/ Island \/ ProjY \/ ProjA \/ Solve \/ Reset
 Spec == Init /\ [][Next]_vars
 
 \* ---- the property -----------------------------------------------------------------------------------
 TypeOK == /\ cap \in 0..CapMax /\ prof \in Profiles /\ deref \in BOOLEAN
-          /\ pc \in {"idle", "broad", "pairs", "contacts", "island", "solve", "error", "crash"}
+          /\ pc \in {"idle", "broad", "pairs", "contacts", "island", "projY", "projA", "solve", "error", "crash"}
 \* nothing is written outside the arena: the two regions never meet
 Apart == parena >= 0 /\ pstack >= 0 /\ parena + pstack <= cap
 \* a failed allocation is never dereferenced (no crash state)
@@ -172,14 +202,15 @@ FairSpec == Spec /\ WF_vars(Next)
 Enough == (obs.kind = "done" /\ cap >= prof.need) => (wcon = 0 /\ wcns = 0 /\ ncon = Total(prof))
 
 \* ---- demand profiles (cfg files cannot hold records) ------------------------------------------------------
-P(np, b, pc_, fx, isl, need) == [npairs |-> np, batches |-> b, percon |-> pc_, fixed |-> fx, islands |-> isl, need |-> need]
+P(np, b, pc_, fx, isl, du, need) == [npairs |-> np, batches |-> b, percon |-> pc_, fixed |-> fx, islands |-> isl, dual |-> du, need |-> need]
 \* need = a capacity at which everything fits: frame + max over the sites
 Need(np, b, pc_, fx) ==
   LET t == Total([batches |-> b]) IN
   FrameSz + t * ConSz + (pc_ * t + fx) * RowSz + IslSz + IslStk + SolveStk + BroadStk + np * PairSz + NarrowStk
-Mk(np, b, pc_, fx, isl) == P(np, b, pc_, fx, isl, Need(np, b, pc_, fx))
-ProfTrace == {Mk(np, b, 1, fx, isl) : np \in {0, 2}, b \in {<< >>, <<2>>, <<1, 1>>}, fx \in {0, 1}, isl \in BOOLEAN}
-ProfSmall == {Mk(2, <<2>>, 1, 0, TRUE), Mk(2, <<1, 1>>, 2, 0, TRUE), Mk(0, << >>, 1, 1, FALSE)}
-ProfAll   == {Mk(np, b, pc_, fx, isl) : np \in {0, 2, 3}, b \in {<< >>, <<2>>, <<1, 1>>, <<1, 2>>}, pc_ \in {1, 2},
-                                        fx \in {0, 1}, isl \in BOOLEAN}
+  + YIdx + YVal + YCol + ARStk + AIdx + AVal + ACol
+Mk(np, b, pc_, fx, isl, du) == P(np, b, pc_, fx, isl, du, Need(np, b, pc_, fx))
+ProfTrace == {Mk(np, b, 1, fx, isl, du) : np \in {0, 2}, b \in {<< >>, <<2>>, <<1, 1>>}, fx \in {0, 1}, isl \in BOOLEAN, du \in BOOLEAN}
+ProfSmall == {Mk(2, <<2>>, 1, 0, TRUE, TRUE), Mk(2, <<1, 1>>, 2, 0, TRUE, FALSE), Mk(0, << >>, 1, 1, FALSE, TRUE)}
+ProfAll   == {Mk(np, b, pc_, fx, isl, du) : np \in {0, 2, 3}, b \in {<< >>, <<2>>, <<1, 1>>, <<1, 2>>}, pc_ \in {1, 2},
+                                            fx \in {0, 1}, isl \in BOOLEAN, du \in BOOLEAN}
 =============================================================================
